@@ -8,14 +8,55 @@ package rewrite
 //@ props C01
 
 //@ func Config.Next assumed pure
-//@ func captureTokens assumed pure
-//@ func @strings.(*Replacer).Replace assumed pure
+
+// captureTokens: nil iff the expression does not match the path; otherwise a Replacer with one pair per parenthesised
+// group of the expression, in group order: "$<n>" -> the text the n-th group captured in the LEFTMOST match
+// (vocabulary of /verif/contracts/deps/mw_C01rewrite.spec).
+//@ func captureTokens
+//@   pure
+//@   loop 1
+//@     invariant index-in-range: -1 <= rangeindex && rangeindex < len(values)
+//@     invariant pairs-so-far: forall(k, 0, rangeindex + 1, replace[2*k] == "$" + fmtInt(k + 1) && replace[2*k+1] == values[k])
+//@   ensures nil-iff-no-match: (result == nil) <==> !reFinds(pattern, input)
+//@   ensures one-pair-per-group: result != nil ==> replN(result) == reNumSub(pattern)
+//@   ensures dollar-n-to-nth-capture: result != nil ==> forall(k, 0, reNumSub(pattern), replOld(result, k) == "$" + fmtInt(k + 1) && replNew(result, k) == reSub(pattern, input, k + 1))
 //@ func @fiber.Ctx.RestartRouting(recv) assumed
 //@   modifies heap
 
+// New compiles the rule table: every rule "pattern" -> "replacement" of Config.Rules becomes one entry of rulesRegex
+// whose expression is compiled from the pattern with every "*" replaced by "(.*)" and "$" appended (anchored at the END
+// of the path only), mapped to the same replacement; the table has no other entries.
+//@ macro ruleExpr(k) = strReplaceAll(k, "*", "(.*)") + "$"
+//@ func New
+//@   loop 1
+//@     invariant table-made: cfg.rulesRegex != nil
+//@     invariant entries-are-objects: forallI(r, indom(cfg.rulesRegex, r) ==> allocated(r))
+//@     invariant every-entry-from-a-visited-rule: forallI(r, indom(cfg.rulesRegex, r) ==> existsS(k, seen(k) && indom(cfg.Rules, k) && reSource(r) == ruleExpr(k) && cfg.rulesRegex[r] == cfg.Rules[k]))
+//@     invariant every-visited-rule-compiled: forallS(k, seen(k) ==> existsI(r, indom(cfg.rulesRegex, r) && reSource(r) == ruleExpr(k) && cfg.rulesRegex[r] == cfg.Rules[k]))
+//@   ensures every-entry-from-a-rule: forallI(r, indom(cfg.rulesRegex, r) ==> existsS(k, indom(cfg.Rules, k) && reSource(r) == ruleExpr(k) && cfg.rulesRegex[r] == cfg.Rules[k]))
+//@   ensures every-rule-compiled: forallS(k, indom(cfg.Rules, k) ==> existsI(r, indom(cfg.rulesRegex, r) && reSource(r) == ruleExpr(k) && cfg.rulesRegex[r] == cfg.Rules[k]))
+
+// The handler. Unless skipped by cfg.Next: the path is overridden at most once, before the rest of the chain runs, and
+// only by a rule (k -> v of the compiled table) whose expression matches the current path - the new path is v with every
+// "$<n>" replaced by what the n-th group of k captured in the current path (replaced(): strings.Replacer semantics,
+// mw_C01rewrite.spec); if no rule's expression matches, the path is not touched. With several matching rules the one
+// that is applied is the first in Go's (unspecified) map iteration order.
 // After overriding the path the middleware hands on to the REST of the chain (the later-registered routes
 // that match the new path): exactly one c.Next(), never a restart of the routing from the first route.
+//@ macro bypassed() = called(Config.Next) && last(Config.Next)
+//@ macro captures(r, re, path) = replN(r) == reNumSub(re) && forall(i, 0, reNumSub(re), replOld(r, i) == "$" + fmtInt(i + 1) && replNew(r, i) == reSub(re, path, i + 1))
 //@ func New$1
 //@   requires fresh-activation: nextCalls == 0
+//@   loop 1
+//@     invariant no-visited-rule-matches: forallI(r, seen(r) ==> !reFinds(r, reqPath(c, epoch)))
+//@     invariant nothing-rewritten-yet: !called(@strings.(*Replacer).Replace) && nextCalls == 0
+//@   atcall @strings.(*Replacer).Replace: at-most-one-rewrite: !called(@strings.(*Replacer).Replace)
+//@   atcall @fiber.Ctx.Path: at-most-one-override-value: len(override) <= 1
+//@   atcall @fiber.Ctx.Path: override-before-the-rest-of-the-chain: len(override) == 1 ==> nextCalls == 0 && !bypassed()
+//@   atcall @fiber.Ctx.Path: override-by-a-configured-rule: len(override) == 1 ==> indom(cfg.rulesRegex, k) && cfg.rulesRegex[k] == v
+//@   atcall @fiber.Ctx.Path: rule-matches-the-current-path: len(override) == 1 ==> reFinds(k, reqPath(c, epochNow))
+//@   atcall @fiber.Ctx.Path: new-path-is-replacement-with-captures: len(override) == 1 ==> override[0] == replaced(replacer, v) && captures(replacer, k, reqPath(c, epochNow))
+//@   ensures untouched-only-if-no-rule-matches: !bypassed() && !called(@strings.(*Replacer).Replace) ==> forallI(r, old(indom(cfg.rulesRegex, r)) ==> !reFinds(r, old(reqPath(c, epoch))))
+//@   ensures skipped-untouched: bypassed() ==> !called(@strings.(*Replacer).Replace)
 //@   ensures continues-with-the-rest-of-the-chain: nextCalls == 1
 //@   ensures never-restarts-routing: !called(@fiber.Ctx.RestartRouting)
